@@ -37,6 +37,8 @@ ALPHABET = [
     ["Y", 0x10000], ["f_Y", None], ["space", 0x20], ["ab", None], ["uFFFF", None], ["f_X", None],
     # the smallest code point: 0 is a value, not "no code point"
     ["NULL", 0x0], ["NULL.alt", None],
+    # ligatures that repeat a component (adjacent and not)
+    ["f_f", None], ["f_i_f", None],
 ]
 FIXED = [[".notdef", None], ["f", 0x66], ["i", 0x69], ["acutecomb", 0x301]]
 FIXED_NAMES = [n for n, _ in FIXED]
